@@ -12,7 +12,7 @@ namespace SmtpV.Props.C14
 open SmtpV SmtpV.Spec SmtpV.Text SmtpV.Xtext SmtpV.Parse SmtpV.Server SmtpV.Props.C11 SmtpV.Reply SmtpV.ReplyRT
 
 /-! ### SIZE -/
-theorem parseUintDec_natToDec (n : Nat) (h : n < 2 ^ 32) : parseUintDec (natToDec n) 32 = some n := by
+theorem parseUintDec_natToDec (n bits : Nat) (h : n < 2 ^ bits) : parseUintDec (natToDec n) bits = some n := by
   obtain ⟨d, t, hdt, hd⟩ := natToDec_head n
   have hall := natToDec_digits n
   have hval := natToDec_value n
@@ -82,7 +82,8 @@ theorem mailParams_size (cfg : Cfg) (rest : List (Bytes × Bytes)) (o : MailOpts
     mailParams cfg (("SIZE".b, natToDec n) :: rest) o bm = mailParams cfg rest { o with size := n } bm := by
   rw [mailParams]
   have hk : ("SIZE".b == "SIZE".b) = true := by decide +kernel
-  simp only [hk, if_true, parseUintDec_natToDec n h]
+  have h63 : n < 2 ^ 63 := Nat.lt_trans h (by decide)
+  simp only [hk, if_true, parseUintDec_natToDec n 63 h63]
   have : (decide (cfg.maxMsg > 0) && decide (n > cfg.maxMsg)) = false := by
     rcases hm with h0 | hle
     · simp [h0]
